@@ -31,17 +31,24 @@ Scaled(A, s) == [i \in 1..Len(A) |-> [j \in 1..Len(A[i]) |-> s * A[i][j]]]
 Expand(A, labels, full) == [i \in 1..Len(A) |-> [j \in 1..Len(full) |-> IF full[j] \in Range(labels) THEN A[i][IndexOf(labels, full[j])] ELSE 0]]
 
 \* ---------------------------------------------------------------- reduction: relations then constraints at coordinate g
-Reduce(A, labels, c, g) ==
+\* label level (also used on its own by ReduceTrace.tla, which validates recorded reductions of real models)
+ReduceLabels(labels, c, g) ==
   LET rels == SelectSeq(c.relations, LAMBDA r : r.target \in Range(labels) /\ r.source \in Range(labels) /\ InIvs(r.ivs, g))
       tgt == {rels[k].target : k \in 1..Len(rels)}
-      coef(l, t) == LET ks == {k \in 1..Len(rels) : rels[k].source = l /\ rels[k].target = t} IN IF ks = {} THEN 0 ELSE rels[CHOOSE k \in ks : TRUE].param
       keep1 == SelectSeq(labels, LAMBDA l : l \notin tgt)
-      A1 == [i \in 1..Len(A) |-> [j \in 1..Len(keep1) |->
-               A[i][IndexOf(labels, keep1[j])] + Dot([t \in 1..Len(labels) |-> coef(keep1[j], labels[t])], A[i])]]
       zs == {c.constraints[k].target : k \in {k \in 1..Len(c.constraints) :
                  IF c.constraints[k].type = "zero" THEN InIvs(c.constraints[k].ivs, g) ELSE ~InIvs(c.constraints[k].ivs, g)}}
       keep2 == SelectSeq(keep1, LAMBDA l : l \notin zs)
-  IN [labels |-> keep2, rels |-> rels, zeroed |-> zs,
+  IN [rels |-> rels, keep1 |-> keep1, zs |-> zs, keep2 |-> keep2]
+Reduce(A, labels, c, g) ==
+  LET rl == ReduceLabels(labels, c, g)
+      rels == rl.rels
+      coef(l, t) == LET ks == {k \in 1..Len(rels) : rels[k].source = l /\ rels[k].target = t} IN IF ks = {} THEN 0 ELSE rels[CHOOSE k \in ks : TRUE].param
+      keep1 == rl.keep1
+      A1 == [i \in 1..Len(A) |-> [j \in 1..Len(keep1) |->
+               A[i][IndexOf(labels, keep1[j])] + Dot([t \in 1..Len(labels) |-> coef(keep1[j], labels[t])], A[i])]]
+      keep2 == rl.keep2
+  IN [labels |-> keep2, rels |-> rels, zeroed |-> rl.zs,
       A |-> [i \in 1..Len(A1) |-> [j \in 1..Len(keep2) |-> A1[i][IndexOf(keep1, keep2[j])]]]]
 WeightRows(A, w) == [i \in 1..Len(A) |-> [j \in 1..Len(A[i]) |-> w[i] * A[i][j]]]
 Had(u, v) == [i \in 1..Len(u) |-> u[i] * v[i]]
